@@ -239,7 +239,12 @@ class PVLEncoder(object):
         def replace(match):
             if re.fullmatch("|".join(patterns), match.group(0)):
                 return match.group(0).translate(protect)
-            return match.group(0)
+            # A string that may be wrapped: but not right after a dash,
+            # which at the end of a line would be read as a continuation.
+            return re.sub(
+                fr"-[{ws}]", lambda m: m.group(0).translate(protect),
+                match.group(0)
+            )
 
         return elements.sub(replace, s), restore
 
